@@ -379,6 +379,9 @@ func (s *Sim) applyEntries(n *Node, ents []*pb.Entry) {
 				s.harnessBug("undecodable conf change at %d: %v", idx, err)
 			}
 			next, merr := n.SM.Conf.Apply(v2)
+			if merr == nil && s.reusesRetiredID(n.SM.Conf, next, idx) {
+				merr = errors.New("the change brings back an id that was removed from the group before")
+			}
 			if merr != nil {
 				s.Stats.inc("conf.rejected_by_app")
 				s.tracef("    node %d: app rejects conf change at %d (%v)", n.ID, idx, merr)
